@@ -1064,3 +1064,22 @@ package control
 //@   at call Time).Add#1 assert a0 == cache.Deadline && optimisticCacheEnabled && optimisticCacheTtl > 0
 //@   at call Time).After#1 assert a1 == now && (calls("Time).Add") == 0 ==> a0 == cache.Deadline)
 //@   at call evictDnsRespCacheIfSame#1 assert a1 == cacheKey && a2 == cache
+
+// C13 (one endpoint per key while it is usable): under the creation lock too, a published endpoint is replaced
+// only when it is a failed entry whose hold-off expired, or dead, or belongs to an older generation AND does
+// not survive the dialer invalidation - a live endpoint of the current generation (e.g. the one a concurrent
+// first packet has just dialled) is handed back, never closed and dialled again.
+//@ func (*UdpEndpointPool).GetOrCreate
+//@   anchorsonly
+//@   nonilcheck
+//@   dyncalls noeffect
+//@   modifies *
+//@   ghostfn dead2() bool
+//@   ghostfn cur2() bool
+//@   ghostfn surv2() bool
+//@   at call IsDead#2 assume-after result == dead2()
+//@   at call endpointGenerationCurrent#2 assume-after result == cur2()
+//@   at call endpointSurvivesDialerInvalidation#2 assume-after result == surv2()
+//@   at call builtin:delete#2 assert a0 == shard.pool && (dead2() || (!cur2() && !surv2()))
+//@   at call createEndpointLocked#1 assert a1 == key && a2 == createOption
+//@   at call UdpEndpoint).Close#1 assert a0 == staleToClose && staleToClose != nil
